@@ -224,6 +224,7 @@ tpt_msg_one_by_one_proxy_cb(tpt_p tpt, void *udata) {
 		return;
 	/* All except caller thread done / error. */
 	if (0 == ((TP_BMSG_F_SELF_SKIP | TP_MSG_F_SELF_DIRECT) & msg_data->flags) &&
+	    tpt_get_tp(msg_data->tpt) == tpt_get_tp(tpt) && /* Thread from other pool is not a target. */
 	    msg_data->tpt != tpt) { /* Try shedule caller thread. */
 		msg_data->cur_thr_idx = tp_thread_count_max_get(tpt_get_tp(tpt));
 		msg_data->send_msg_cnt ++;
@@ -342,7 +343,7 @@ tpt_msg_broadcast_send__int(tp_p tp, tpt_p src,
 
 	if (NULL != msg_data &&
 	    NULL != src &&
-	    tpt_get_tp(src) == tp && /* Thread from other pool is not skipped. */
+	    tp_thread_get(tp, tpt_get_num(src)) == src && /* Thread from other pool / pvt is not skipped. */
 	    0 != (TP_BMSG_F_SELF_SKIP & flags)) {
 		msg_data->active_thr_count --;
 	}
@@ -580,11 +581,18 @@ tpt_msg_cbsend(tp_p tp, tpt_p src, uint32_t flags,
 	tm_cnt = tpt_msg_broadcast_send__int(tp, src, msg_data, flags,
 	    tpt_msg_sync_proxy_cb, msg_data, &msg_data->send_msg_cnt,
 	    &msg_data->error_cnt);
+	if (tm_cnt == (threads_max - ((0 != (TP_BMSG_F_SELF_SKIP & flags) &&
+	    tp_thread_get(tp, tpt_get_num(src)) == src) ? 1 : 0))) {
+		/* Nothing sended: nobody else holds msg_data. */
+		MTX_DESTROY(&msg_data->lock);
+		free(msg_data);
+		return (ESPIPE);
+	}
 	if (0 == tm_cnt)
 		return (0); /* OK, sheduled. */
 	/* Errors. Update active threads count and store to tm_cnt. */
 	send_msg_cnt = msg_data->send_msg_cnt; /* Remember before release. */
-	tm_cnt = tpt_msg_active_thr_count_dec(msg_data, src, tm_cnt);
+	tm_cnt = tpt_msg_active_thr_count_dec(msg_data, NULL, tm_cnt);
 	if (0 == send_msg_cnt)
 		return (ESPIPE);
 	return (0);
